@@ -763,7 +763,7 @@ func TestGb28181Unpacker(t *testing.T) {
 	resetNotes()
 	pbt.Run(t, pbt.Spec[GbCase]{
 		ID: "C13", Name: "gb28181-ps-rtp", Gen: genGbCase("l1"), Run: runGbL1, Classify: classifyGb, Isolate: true,
-		Quick: 150, Thorough: 3000,
+		Quick: 200, Thorough: 3000,
 	})
 }
 
